@@ -86,6 +86,9 @@ func (lc *LineCharge) Validate() error {
 
 // IsEmpty returns true if the charge is empty.
 func (lc *LineCharge) IsEmpty() bool {
+	if lc == nil {
+		return true
+	}
 	return lc.Key.IsEmpty() &&
 		lc.Code.IsEmpty() &&
 		lc.Reason == "" &&
